@@ -366,7 +366,12 @@ class Interp:
         """a < b (strict) or a <= b for ints/reals/strings/tuples"""
         if isinstance(a, VUndef) or isinstance(b, VUndef):
             return self.undef_bool()
-        if isinstance(a, VOpt) or isinstance(b, VOpt):
+        if self.spec:
+            if isinstance(a, VOpt):
+                a = a.val()
+            if isinstance(b, VOpt):
+                b = b.val()
+        elif isinstance(a, VOpt) or isinstance(b, VOpt):
             a, b = self.force(a), self.force(b)
         if isinstance(a, VNone) or isinstance(b, VNone):
             self.raise_exc("TypeError", "ordering comparison with None")
@@ -567,6 +572,9 @@ class Interp:
             if isinstance(n.op, ast.And) and not t:
                 return last
             if isinstance(n.op, ast.Or) and t:
+                if isinstance(last, VOpt):
+                    self.path.assume(z3.Not(last.is_none()))
+                    return last.val()
                 return last
         return last
 
